@@ -1,7 +1,7 @@
 """Per-property configuration of ./check (which theorems, suites, oracle, budgets)."""
 
 # model .vo files the extracted driver depends on (built before extraction)
-MODEL_VO = ["Base.vo", "GoOps.vo", "Gen/Tables.vo", "Gen/Preds.vo", "Token.vo", "VLQ.vo", "SourceMap.vo", "Lexer.vo", "Tree.vo", "Writer.vo", "PrinterLib.vo", "Gen/Printer.vo", "Compile.vo", "Parser.vo", "Registry.vo", "Grammar.vo", "GrammarLax.vo", "PrintSpec.vo", "CommentSpec.vo", "RelexSpec.vo", "TokenSpec.vo", "SegSpec.vo", "NestSpec.vo"]
+MODEL_VO = ["Base.vo", "GoOps.vo", "Gen/Tables.vo", "Gen/Preds.vo", "Token.vo", "VLQ.vo", "SourceMap.vo", "Lexer.vo", "Tree.vo", "Writer.vo", "PrinterLib.vo", "Gen/Printer.vo", "Compile.vo", "Parser.vo", "Registry.vo", "Grammar.vo", "GrammarLax.vo", "PrintSpec.vo", "CommentSpec.vo", "RelexSpec.vo", "TokenSpec.vo", "SegSpec.vo", "NestSpec.vo", "GrammarModes.vo"]
 
 # projections: properties that do not speak about positions compare tokens and errors without them
 POS_FREE = [(r"(\{\d+:[0-9a-f-]*):-?\d+:-?\d+:-?\d+:-?\d+:", r"\1:"),     # tokens inside trees / token streams
